@@ -47,6 +47,11 @@
 (*                         module account (bank BurnCoins)                  *)
 (*   Delegate   [s,a,o,x]  deposit + delegate at keeper level (changes the  *)
 (*                         environment only)                                *)
+(*   Jail       [o]        the dogfood keeper jails validator o (what         *)
+(*                         x/slashing does for downtime): the validator     *)
+(*                         keeps its power until the next staking epoch,    *)
+(*                         its stakers' active USD value becomes 0          *)
+(*                         (changes the environment only)                   *)
 (*   EndBlock   []         app.EndBlock + Commit                            *)
 (*   BeginBlock [ended]    app.BeginBlock of the next block at a time that  *)
 (*                         ends the epoch identifiers `ended`               *)
@@ -59,6 +64,8 @@ CONSTANTS
   DEVIATIONS   \* named OLD behaviours of AllocateTokensToStakers the model can follow instead of the current tree
                \* (kept so that the guards can show that the invariants detect them):
                \*   "L11": (defect, fixed in 311e836) adds the WHOLE staker share to the community pool
+               \*   "ZS":  (never in the tree; guard only) early return when the operator's total staker power is zero,
+               \*          so that the staker share is booked to nobody
                \*   "L27": (defect, fixed in 9ad8de4) one list entry and one payment per (AVS, asset, staker), the power
                \*          map overwritten by the last entry while the total sums every entry
 
@@ -112,7 +119,8 @@ ToStakersD(dv, st, e, o, R) ==
               ELSE FoldLeft(stepAcc, zero, firsts)
       \* code since 311e836: feePool.CommunityPool.Add(remaining...)
       \* before (lead L11):  feePool.CommunityPool.Add(rewardToAllStakers...)
-      cpAdd == IF "L11" \in dv THEN R ELSE res.rem
+      \* "ZS": a seeded omission - returning early when no staker has power, before the remainder is booked
+      cpAdd == IF "L11" \in dv THEN R ELSE IF "ZS" \in dv /\ ~NIsPos(total) THEN N0 ELSE res.rem
   IN [st |-> [st EXCEPT !.srew = res.srew, !.cp = NAdd(st.cp, cpAdd)], panic |-> res.panic]
 
 \* AllocateTokensToValidator(operator o, tokens)
@@ -171,7 +179,7 @@ ApplyD(dv, st, e, ev, a) ==
   CASE ev = "FeeIncome"  -> [st |-> [st EXCEPT !.fc = NAdd(st.fc, a.x)], panic |-> FALSE]
     [] ev = "Burn"       -> [st |-> [st EXCEPT !.supply = NSub(st.supply, a.x)], panic |-> FALSE]
     [] ev = "BeginBlock" -> BeginBlockD(dv, st, e, a.ended)
-    [] OTHER             -> [st |-> st, panic |-> FALSE]      \* Delegate, EndBlock
+    [] OTHER             -> [st |-> st, panic |-> FALSE]      \* Delegate, Jail, EndBlock
 
 Apply(st, e, ev, a) == ApplyD(DEVIATIONS, st, e, ev, a)
 
